@@ -318,6 +318,13 @@ func (s *Stream) WriteSCTP(payload []byte, ppi PayloadProtocolIdentifier) (int, 
 		return 0, ErrStreamClosed
 	}
 
+	// SCTP cannot carry a message without user data. Nothing is sent for an
+	// empty payload, so it must not consume a stream sequence number or message
+	// identifier either: the peer would wait forever for the skipped number.
+	if len(payload) == 0 {
+		return 0, nil
+	}
+
 	// the send could fail if the association is blocked for writing (timeout), it will left a hole
 	// in the stream sequence number space, so we need to lock the write to avoid concurrent send and decrement
 	// the sequence number in case of failure
